@@ -35,9 +35,10 @@ def xml_attr(s):
 def generate(res):
     src = C.read(os.path.join(C.REPO, "src", "pretty_print.rs"))
     can = C.read(os.path.join(C.REPO, "src", "canonicalize.rs"))
-    table = G.escape_table(src)
-    C.write_if_changed(os.path.join(C.GEN, "EscapeTab.v"), G.render(table, G.quote_char(src), GE.phf_str_set(can, "ELEMENTS_WITH_ONE_CHILD"),
-                                                                    GE.phf_str_set(can, "ELEMENTS_WITH_FIXED_NUMBER_OF_CHILDREN")))
+    table, quote, one, fixed = C.translate(res, "c02", "escape table of pretty_print.rs, child-count sets of canonicalize.rs",
+                                           lambda: (G.escape_table(src), G.quote_char(src), GE.phf_str_set(can, "ELEMENTS_WITH_ONE_CHILD"),
+                                                    GE.phf_str_set(can, "ELEMENTS_WITH_FIXED_NUMBER_OF_CHILDREN")))
+    C.write_if_changed(os.path.join(C.GEN, "EscapeTab.v"), G.render(table, quote, one, fixed))
     ok, log = C.build_harness()
     if not ok:
         raise RuntimeError("harness build failed: " + log)
